@@ -4,3 +4,4 @@ import Model.Frame
 import Model.Group
 import Model.LoD
 import Model.Obsolete
+import Model.FrameState
